@@ -350,18 +350,39 @@ impl TransportFn<()> for SoundRun {
         with(|w| w.check_no_lost_wakeup("sound-new"));
         let n_ops = 10 + choose(120);
         let mut total = 0;
+        let mut started = false;
         for _ in 0..n_ops {
             if violated() {
                 break;
             }
-            if flip(1, 3) {
+            if flip(1, 8) {
+                // a blocking playback call in between: notifications that complete before, during
+                // and after it must still come out in completion order
+                use virtio_drivers::device::sound::{PcmFeatures, PcmFormat, PcmRate};
+                if !started {
+                    let r = snd.pcm_set_params(0, 64, 16, PcmFeatures::empty(), 1, PcmFormat::U8, PcmRate::Rate8000).and_then(|_| snd.pcm_prepare(0)).and_then(|_| snd.pcm_start(0));
+                    if let Err(e) = r {
+                        violation("sound-setup-failed", "pcm_start", format!("{e:?}"));
+                        break;
+                    }
+                    started = true;
+                }
+                let during = choose(3);
+                with(|w| w.personality::<crate::devices::sound::SoundDev>().events.budget += during);
+                let frames = vec![7u8; 1 + choose(100) as usize];
+                let r = snd.pcm_xfer(0, &frames);
+                oplog(|| format!("pcm_xfer({} bytes) -> {r:?} ({during} notification(s) allowed meanwhile)", frames.len()));
+                if let Err(e) = r {
+                    violation("sound-xfer-failed", "pcm_xfer", format!("{e:?}"));
+                }
+            } else if flip(1, 3) {
                 let burst = 1 + choose(40);
                 with(|w| {
-                    w.personality::<EventSource>().budget += burst;
+                    w.personality::<crate::devices::sound::SoundDev>().events.budget += burst;
                     w.run_device(burst + 2);
                 });
             } else {
-                let expect = with(|w| w.personality::<EventSource>().delivered.front().cloned());
+                let expect = with(|w| w.personality::<crate::devices::sound::SoundDev>().events.delivered.front().cloned());
                 let got = snd.latest_notification();
                 oplog(|| format!("latest_notification -> {got:?}"));
                 match (expect, got) {
@@ -369,7 +390,7 @@ impl TransportFn<()> for SoundRun {
                     (None, g) => violation("sound-spurious-notification", "latest_notification", format!("nothing pending but got {g:?}")),
                     (Some(rec), g) => {
                         with(|w| {
-                            w.personality::<EventSource>().delivered.pop_front();
+                            w.personality::<crate::devices::sound::SoundDev>().events.delivered.pop_front();
                         });
                         total += 1;
                         let want = sound_event(rec.n);
@@ -383,7 +404,7 @@ impl TransportFn<()> for SoundRun {
                             }
                             other => violation("sound-notification-lost", "latest_notification", format!("event {} pending but got {other:?}", rec.n)),
                         }
-                        let (post, pend) = with(|w| (posted(w, 1), w.personality::<EventSource>().delivered.len()));
+                        let (post, pend) = with(|w| (posted(w, 1), w.personality::<crate::devices::sound::SoundDev>().events.delivered.len()));
                         if post + pend != 32 {
                             violation("sound-stock-level", "latest_notification", format!("{post} posted + {pend} completed-unconsumed != 32"));
                         }
@@ -410,8 +431,8 @@ pub fn sound_run() {
     }
     zoo::setup_device(Kind::Sound, feats, Kind::Sound.default_config());
     with(|w| {
-        let mut d = EventSource::new(1);
-        d.payload = Some(sound_event);
+        let mut d = crate::devices::sound::SoundDev::new();
+        d.events.payload = Some(sound_event);
         w.dev = Some(Box::new(d));
     });
     oplog(|| format!("VirtIOSound notifications over {tk:?} features {feats:#x}"));
